@@ -356,6 +356,23 @@ def server_adv_cases():
     add("cr_empty_sigalgs_then_full_flight", P2, lambda adv: with_cr_then_finish(
         adv, R.CertificateRequest(b"", [(R.EXT_SIGNATURE_ALGORITHMS, R.vec(2, b""))])))
 
+    # a client that HAS a certificate (non-default configuration) must pick a signature scheme from the
+    # server's list that fits its key - or answer without one; lists that fit / do not fit / are hostile
+    sa_lists = [("ed25519_only", [R.SIG_ED25519]), ("ecdsa_only", [R.SIG_ECDSA_SECP256R1_SHA256, R.SIG_ECDSA_SECP384R1_SHA384]),
+                ("rsa_pss_only", [R.SIG_RSA_PSS_RSAE_SHA256]), ("rsa_pkcs1_only", [R.SIG_RSA_PKCS1_SHA256]),
+                ("ed448_only", [R.SIG_ED448]), ("unknown_only", [0x9999]),
+                ("all", [R.SIG_ED25519, R.SIG_ECDSA_SECP256R1_SHA256, R.SIG_RSA_PSS_RSAE_SHA256, R.SIG_RSA_PKCS1_SHA256])]
+    for ckt in ("ed25519", "rsa2048", "p256"):
+        for nm, lst in sa_lists:
+            add("cr_client_has_%s_sigalgs_%s_then_full_flight" % (ckt, nm), P2,
+                lambda adv, lst=lst: with_cr_then_finish(adv, R.CertificateRequest(b"", [(R.EXT_SIGNATURE_ALGORITHMS, SA(lst))])),
+                cfg={"c_cert": ckt})
+        add("cr_client_has_%s_no_sigalgs_then_full_flight" % ckt, P2,
+            lambda adv: with_cr_then_finish(adv, R.CertificateRequest(b"", [])), cfg={"c_cert": ckt})
+        add("cr_client_has_%s_empty_sigalgs_then_full_flight" % ckt, P2,
+            lambda adv: with_cr_then_finish(adv, R.CertificateRequest(b"", [(R.EXT_SIGNATURE_ALGORITHMS, R.vec(2, b""))])),
+            cfg={"c_cert": ckt})
+
     def cert(entries, ctx=b""):
         return send("handshake", lambda a: R.Certificate(ctx, entries(a) if callable(entries) else entries))
     add("cert_empty_list", P2, cert([]))
